@@ -63,6 +63,12 @@ void trace(const char* tag, const tvalues&... values)
 ///
 #define NANO_VERIF_GBOOST_TRACE 1
 
+///
+/// \brief hook H3b: the data flow of the boosting fit — the samples a round's weak learner is fitted on, the tracked
+///     predictions after every round, every grid point of the local shrinkage tuning (src/gboost/model.cpp, util.cpp).
+///
+#define NANO_VERIF_GBOOST_FIT_TRACE 1
+
 namespace nano::verif
 {
 ///
